@@ -23,6 +23,8 @@ CACHE = os.path.join(VERIF, ".cache") if REPO == "/repo" else os.path.join(
 BUILD = os.path.join(CACHE, "ompl-build")
 MANIFEST = os.path.join(CACHE, "ompl-build.manifest.json")
 GUARD = "OMPL_VERIF"
+# same configuration as the pinned test suite (RelWithDebInfo, assertions off), lighter debug info
+RELFLAGS = "-O2 -g1 -DNDEBUG"
 
 
 def _hash_file(p):
@@ -79,7 +81,7 @@ def _configure():
         "cmake", "-G", "Ninja", "-S", REPO, "-B", BUILD,
         "-DCMAKE_BUILD_TYPE=RelWithDebInfo",
         "-DCMAKE_CXX_FLAGS=-D%s -Wno-error" % GUARD,
-        "-DCMAKE_CXX_FLAGS_RELWITHDEBINFO=-O2 -g1",
+        "-DCMAKE_CXX_FLAGS_RELWITHDEBINFO=" + RELFLAGS,
         "-DOMPL_BUILD_TESTS=OFF", "-DOMPL_BUILD_DEMOS=OFF", "-DOMPL_BUILD_PYBINDINGS=OFF",
         "-DOMPL_BUILD_PYTESTS=OFF", "-DOMPL_REGISTRATION=OFF",
     ]
@@ -119,6 +121,7 @@ def ensure_built(log=lambda s: None):
     with open(os.path.join(CACHE, "ompl-build.lock"), "w") as lk:
         fcntl.flock(lk, fcntl.LOCK_EX)
         cur = tree_hashes()
+        cur["__flags__"] = RELFLAGS + " " + GUARD
         old = {}
         if os.path.isfile(MANIFEST) and os.path.isfile(os.path.join(BUILD, "build.ninja")):
             try:
@@ -127,7 +130,7 @@ def ensure_built(log=lambda s: None):
                 old = {}
         lib = os.path.join(BUILD, "src", "ompl", "libompl.so")
         rebuilt = 0
-        if not old or not os.path.isfile(os.path.join(BUILD, "build.ninja")):
+        if not old or not os.path.isfile(os.path.join(BUILD, "build.ninja")) or old.get("__flags__") != cur["__flags__"]:
             log("ompl cache: configuring from scratch")
             _configure()
             rebuilt = -1
